@@ -11,6 +11,7 @@ pub mod c14;
 pub mod c16;
 pub mod c17;
 pub mod c19;
+pub mod ics;
 pub mod ms;
 pub mod stake;
 
@@ -26,11 +27,14 @@ pub fn get(id: &str) -> Option<Box<dyn Monitor>> {
         "C08" => Some(Box::new(c08::C08)),
         "C09" => Some(Box::new(c09::C09)),
         "C10" => Some(Box::new(stake::Stake { prop: "C10" })),
+        "C11" => Some(Box::new(ics::Ics { prop: "C11" })),
+        "C12" => Some(Box::new(ics::Ics { prop: "C12" })),
         "C13" => Some(Box::new(c13::C13)),
         "C14" => Some(Box::new(c14::C14)),
         "C15" => Some(Box::new(ms::Ms { prop: "C15" })),
         "C16" => Some(Box::new(c16::C16)),
         "C17" => Some(Box::new(c17::C17)),
+        "C18" => Some(Box::new(ics::Ics { prop: "C18" })),
         "C19" => Some(Box::new(c19::C19)),
         _ => None,
     }
